@@ -152,6 +152,8 @@ class MrAndersonSimulator(object):
                         used_q.append(q2)
                 if x.operation.name == 'measure':
                     measure_qc.append((x.qubits[0]._index, x.clbits[0]._index))
+        # The circuit classes and the tensor factors of psi0 are ordered by ascending qubit index.
+        used_q.sort()
         n_qubit = len(used_q)
         
         return used_q, measure_qc, n_qubit
